@@ -45,6 +45,21 @@ y := m.f(x) + undefined`,
 	"fails2": `r := x
 f := func(v) { return v.a.b }
 y := f(x)`,
+	// indexes and iterates a string *input*: every clone has its own copy of it (nothing shared)
+	"strinput": `n := 0
+for i := 0; i < 12; i++ { n += int(sv[i % 9]) }
+for c in sv { n += int(c) }
+r := n + x`,
+	// an embedder-supplied builtin module with mutable container attributes: a shared constant that scripts must not be able to change
+	"stmod": `st := import("st")
+fr := freeze(st)
+cp := copy(st)
+cp.counter.n = 7
+r := type_name(st.counter) + "/" + type_name(fr.counter) + "/" + st.counter.n + "/" + len(st.log) + "/" + x`,
+	// format() under a lowered string limit: fails for x > 4, succeeds otherwise; the text must be this object's own
+	"fmtlimit": `s := x > 4 ? long : "ok"
+r := ""
+for i := 0; i < 40; i++ { r = format("%s|%d|%s|%v|%5.2f", s, x + i, s, [i, x], 1.5 * i) }`,
 	// source and builtin modules, module function constants shared by all clones
 	"modules": `math := import("math")
 m := import("mod")
@@ -56,8 +71,14 @@ func concCompile(script string) (*tengo.Compiled, error) {
 	s := tengo.NewScript([]byte(concScripts[script]))
 	mm := stdlib.GetModuleMap("math", "enum", "text")
 	mm.AddSourceModule("mod", []byte("export {f: func(a) { t := [a, a]; return t[0] + t[1] }}"))
+	mm.AddBuiltinModule("st", map[string]tengo.Object{
+		"counter": &tengo.Map{Value: map[string]tengo.Object{"n": &tengo.Int{Value: 0}}},
+		"log":     &tengo.Array{Value: []tengo.Object{}},
+	})
 	s.SetImports(mm)
 	_ = s.Add("x", 3)
+	_ = s.Add("sv", "héllo wörld, an input string")
+	_ = s.Add("long", "0123456789012345678901234567890123456789")
 	_ = s.Add("arr", []interface{}{1, 2, 3})
 	// an immutable input holding a mutable child, and a container nested in a container
 	_ = s.Add("cfg", &tengo.ImmutableMap{Value: map[string]tengo.Object{"state": &tengo.Map{Value: map[string]tengo.Object{"hits": &tengo.Int{Value: 0}}}}})
@@ -84,6 +105,11 @@ func concHandle(raw []byte) map[string]interface{} {
 		cs.Reps = 1
 	}
 	problems := []string{}
+	if cs.Script == "fmtlimit" {
+		old := tengo.MaxStringLen
+		tengo.MaxStringLen = 60
+		defer func() { tengo.MaxStringLen = old }()
+	}
 	for rep := 0; rep < cs.Reps; rep++ {
 		orig, err := concCompile(cs.Script)
 		if err != nil {
@@ -154,10 +180,77 @@ func concHandle(raw []byte) map[string]interface{} {
 		case <-time.After(20 * time.Second):
 			return map[string]interface{}{"problems": []string{"concurrent history did not finish (deadlock?)"}}
 		}
+		// an object that was only run (never Set) during the history has computed r from its initial inputs: the value must be the
+		// one a fresh object computes (a result assembled from another object's data shows up here)
+		for n, o := range objs {
+			ran, set := false, false
+			for _, ops := range cs.Plan {
+				for _, op := range ops {
+					if op["obj"] == n && op["kind"] == "Run" {
+						ran = true
+					}
+					if op["obj"] == n && (op["kind"] == "Set" || op["kind"] == "Replace") {
+						set = true
+					}
+				}
+			}
+			idempotent := cs.Script == "strinput" || cs.Script == "stmod" || cs.Script == "fmtlimit" || cs.Script == "strindex" // r does not depend on earlier runs
+			if ran && !set && idempotent {
+				ref, _ := concCompile(cs.Script)
+				if e := ref.Run(); e == nil && fmt.Sprint(o.Get("r").Value()) != fmt.Sprint(ref.Get("r").Value()) {
+					problems = append(problems, fmt.Sprintf("%s computed r=%v during the concurrent history, alone a fresh object computes r=%v", n, o.Get("r").Value(), ref.Get("r").Value()))
+				}
+			}
+		}
 		for n, o := range objs {
 			if !written[n] && snapshotGlobals(o) != before[n] {
 				problems = append(problems, fmt.Sprintf("globals of %s changed although no Run/Set was issued on it: %s -> %s", n, before[n], snapshotGlobals(o)))
 			}
+		}
+		if cs.Script == "fmtlimit" && rep == 0 {
+			// storm: the original fails in format() with the string limit over and over while the clones format concurrently;
+			// every successful run of a clone must produce exactly its own text
+			_ = objs["orig"].Set("x", 9)
+			_ = objs["c1"].Set("x", 3)
+			_ = objs["c2"].Set("x", 4)
+			want := map[string]string{}
+			for _, n := range []string{"c1", "c2"} {
+				ref, _ := concCompile(cs.Script)
+				_ = ref.Set("x", objs[n].Get("x").Int())
+				_ = ref.Run()
+				want[n] = fmt.Sprint(ref.Get("r").Value())
+			}
+			var swg sync.WaitGroup
+			var smu sync.Mutex
+			for k, n := range []string{"orig", "c1", "c2", "orig"} {
+				n := n
+				o := objs[n]
+				if k == 3 {
+					o = objs["orig"].Clone() // a second failing object
+				}
+				swg.Add(1)
+				go func() {
+					defer swg.Done()
+					for i := 0; i < 12; i++ {
+						e := o.Run()
+						if n != "orig" && e == nil {
+							if got := fmt.Sprint(o.Get("r").Value()); got != want[n] {
+								smu.Lock()
+								problems = append(problems, fmt.Sprintf("%s formatted %q while another object's format() failed with the string limit; alone it formats %q", n, got, want[n]))
+								smu.Unlock()
+								return
+							}
+						} else if n != "orig" && e != nil {
+							smu.Lock()
+							problems = append(problems, fmt.Sprintf("%s failed (%v) although its own text is within the limit", n, e))
+							smu.Unlock()
+							return
+						}
+					}
+				}()
+			}
+			swg.Wait()
+			_ = objs["orig"].Set("x", 3)
 		}
 		// every object still runs alone and computes what a fresh object computes for its current x
 		for n, o := range objs {
